@@ -1031,6 +1031,12 @@ fn repr_op<T: PrimeFieldRepr>(mk: &dyn Fn(&[u64]) -> T, n: usize, op: &str, a: &
         }.to_string(),
         ("from_u64", 1) => show(&T::from(parse_u64(a[0])?)),
         ("read_be", 1) => { let bs = parse_bytes(a[0])?; let mut x = mk(&vec![0u64; n]); match x.read_be(&bs[..]) { Ok(()) => show(&x), Err(_) => "ERR:eof".to_string() } }
+        // two values read back to back from a reader that delivers at most `chunk` bytes per read call: the first read_be must
+        // consume exactly its own bytes
+        ("read_be2", 2) => { let bs = parse_bytes(a[0])?; let mut rd = Chunked { data: &bs[..], pos: 0, chunk: parse_usize(a[1])?.max(1) };
+            let mut x = mk(&vec![0u64; n]); let mut y = mk(&vec![0u64; n]);
+            let r1 = x.read_be(&mut rd); let r2 = y.read_be(&mut rd);
+            match (r1, r2) { (Ok(()), Ok(())) => format!("{} {} {}", show(&x), show(&y), rd.pos), _ => "ERR:eof".to_string() } }
         ("read_le", 1) => { let bs = parse_bytes(a[0])?; let mut x = mk(&vec![0u64; n]); match x.read_le(&bs[..]) { Ok(()) => show(&x), Err(_) => "ERR:eof".to_string() } }
         ("write_be", 1) => { let mut buf = vec![]; p(a[0])?.write_be(&mut buf).ok()?; show_bytes(&buf) }
         ("write_le", 1) => { let mut buf = vec![]; p(a[0])?.write_le(&mut buf).ok()?; show_bytes(&buf) }
@@ -1105,6 +1111,12 @@ macro_rules! repr_op_c { ($name:ident, $t:ty) => { fn $name(mk: &dyn Fn(&[u64]) 
         }.to_string(),
         ("from_u64", 1) => show(&<$t>::from(parse_u64(a[0])?)),
         ("read_be", 1) => { let bs = parse_bytes(a[0])?; let mut x = mk(&vec![0u64; n]); match x.read_be(&bs[..]) { Ok(()) => show(&x), Err(_) => "ERR:eof".to_string() } }
+        // two values read back to back from a reader that delivers at most `chunk` bytes per read call: the first read_be must
+        // consume exactly its own bytes
+        ("read_be2", 2) => { let bs = parse_bytes(a[0])?; let mut rd = Chunked { data: &bs[..], pos: 0, chunk: parse_usize(a[1])?.max(1) };
+            let mut x = mk(&vec![0u64; n]); let mut y = mk(&vec![0u64; n]);
+            let r1 = x.read_be(&mut rd); let r2 = y.read_be(&mut rd);
+            match (r1, r2) { (Ok(()), Ok(())) => format!("{} {} {}", show(&x), show(&y), rd.pos), _ => "ERR:eof".to_string() } }
         ("read_le", 1) => { let bs = parse_bytes(a[0])?; let mut x = mk(&vec![0u64; n]); match x.read_le(&bs[..]) { Ok(()) => show(&x), Err(_) => "ERR:eof".to_string() } }
         ("write_be", 1) => { let mut buf = vec![]; p(a[0])?.write_be(&mut buf).ok()?; show_bytes(&buf) }
         ("write_le", 1) => { let mut buf = vec![]; p(a[0])?.write_le(&mut buf).ok()?; show_bytes(&buf) }
